@@ -2,6 +2,8 @@ package checks
 
 import (
 	"fmt"
+	"sort"
+	"strings"
 
 	"github.com/go-fed/activity/pub"
 
@@ -112,4 +114,39 @@ func min(a, b int) int {
 		return a
 	}
 	return b
+}
+
+// selfDeadlockPart runs every scenario of the corpora once as a single request under the cooperative
+// scheduler with the application's locks as real, non-re-entrant blocking resources: a request that
+// asks for a lock it still holds can never return (with a real mutex it hangs forever).
+func selfDeadlockPart(res *Result) {
+	scs := append(append(append([]*Scenario{}, Corpus()...), AddressingCorpus()...), ExtraC11Corpus()...)
+	n := 0
+	for _, sc := range scs {
+		cs := &ConcScenario{Name: "blocking/" + sc.Name, Tweak: sc.Tweak, Reqs: []*Scenario{sc}}
+		co := cs.runConc(mc.NewExec(nil))
+		n++
+		res.Case("blocking-locks|" + sc.Name)
+		if !co.sched.Deadlock {
+			continue
+		}
+		var waits, holds []string
+		for _, q := range co.app.Reqs {
+			for id, c := range q.Held {
+				if c > 0 {
+					holds = append(holds, NormSite(q.Site[id]))
+				}
+			}
+			if q.WaitSite != "" {
+				waits = append(waits, NormSite(q.WaitSite))
+			}
+		}
+		sort.Strings(holds)
+		sort.Strings(waits)
+		res.Violate(fmt.Sprintf("no-return|self-deadlock|wait=%s|hold=%s", strings.Join(uniq(waits), ","), strings.Join(uniq(holds), ",")),
+			fmt.Sprintf("scenario %s with non-re-entrant application locks: the request waits for a lock it holds itself and never returns (%s)", sc.Name, co.sched.DeadlockInfo),
+			M{"check": "C11", "part": "blocking-locks", "scenario": sc.Name, "body": sc.Body})
+	}
+	res.Evaluations += n
+	res.Extra["blocking_lock_scenarios"] = n
 }
